@@ -3,6 +3,7 @@ package c11
 import (
 	"bytes"
 	"fmt"
+	"runtime"
 	"runtime/debug"
 	"strings"
 	"sync"
@@ -21,7 +22,7 @@ import (
 func TestMain(m *testing.M) {
 	kit.Main(m, "C11", "exploration",
 		"both secure-memory implementations with the REAL memory primitives; the kernel's view of the pages is read from /proc/self/smaps (permissions, VmFlags lo = mlocked, dd = excluded from core dumps) for the address seen inside the callback. "+
-			"(1) rapid sequential programs: sizes 1 byte .. 3 pages +/- 1, New / CreateRandom, WithBytes, WithBytesFunc nested to depth 3, Reader.Read with odd buffer sizes, IsClosed, Close, use after Close; page state sampled inside every callback, between callbacks and after Close. "+
+			"(1) rapid sequential programs: sizes 1 byte .. 3 pages +/- 1, New / CreateRandom, WithBytes, WithBytesFunc nested to depth 3, Reader.Read with odd buffer sizes, a Reader partly consumed before Close and read again after it, a read on the last reference to an unclosed secret with garbage collections forced during the callback, IsClosed, Close, use after Close; page state sampled inside every callback, between callbacks and after Close. "+
 			"(2) rapid concurrent cases: 2-4 readers and 1-2 closers on one secret with a delay plan (1-3 pauses of 0.2-3 ms) over the statement-level yield points the overlay inserts into the two secret.go files; reader goroutines run with SetPanicOnFault so a touch of a PROT_NONE / unmapped page is a recorded violation. "+
 			"Oracle: r--p + locked + dontdump while at least one reader is inside (never writable), ---p + locked + dontdump when idle, unmapped (or at least no longer locked) after Close; readers see exactly the original bytes; the source slice of New is zero afterwards; Close returns only when no callback is running; "+
 			"an access after Close returned gives an error and does not run the callback; IsClosed agrees with the model; no fault, no hang. One evaluation = one program. "+
@@ -89,6 +90,50 @@ func checkClosed(addr uintptr) string {
 	return ""
 }
 
+var tinySink []*[2]byte
+
+// churn flushes the allocator's tiny-object block and runs collections so that pending
+// finalizers become runnable.
+func churn() {
+	for i := 0; i < 64; i++ {
+		tinySink = append(tinySink, new([2]byte))
+	}
+	tinySink = tinySink[:0]
+	runtime.GC()
+	runtime.GC()
+	time.Sleep(2 * time.Millisecond)
+}
+
+//go:noinline
+func lastReferenceRead(f securememory.SecretFactory, content []byte) (msg string) {
+	defer debug.SetPanicOnFault(debug.SetPanicOnFault(true))
+	defer func() {
+		if p := recover(); p != nil {
+			msg = fmt.Sprintf("a reader callback running on the last reference to a secret faulted (the pages were released under it): %v", p)
+		}
+	}()
+	s, err := f.New(append([]byte(nil), content...))
+	if err != nil {
+		return "New failed: " + err.Error()
+	}
+	err = s.WithBytes(func(b []byte) error {
+		for i := 0; i < 3; i++ {
+			churn()
+			if m := checkInside(b, 1); m != "" {
+				return fmt.Errorf("after garbage collections during the callback: %s", m)
+			}
+			if !bytes.Equal(b, content) {
+				return fmt.Errorf("after garbage collections during the callback the reader sees other bytes than the secret's content")
+			}
+		}
+		return nil
+	})
+	if err != nil {
+		return "read on the last reference to an unclosed secret: " + err.Error()
+	}
+	return ""
+}
+
 func TestSequential(t *testing.T) {
 	kit.Check(t, 1200, 48000, func(t *rapid.T) {
 		impl := rapid.SampledFrom([]string{"memguard", "protectedmemory"}).Draw(t, "impl")
@@ -142,7 +187,7 @@ func TestSequential(t *testing.T) {
 		}
 		n := rapid.IntRange(1, 8).Draw(t, "ops")
 		for i := 0; i < n; i++ {
-			op := rapid.SampledFrom([]string{"WithBytes", "WithBytesFunc", "Nested2", "Nested3", "Reader", "IsClosed", "Close", "Close", "ReadAfter"}).Draw(t, "op")
+			op := rapid.SampledFrom([]string{"WithBytes", "WithBytesFunc", "Nested2", "Nested3", "Reader", "IsClosed", "Close", "Close", "ReadAfter", "ReaderAcrossClose", "LastReferenceRead"}).Draw(t, "op")
 			trace = append(trace, op)
 			ran := 0
 			var cbErr string
@@ -213,6 +258,43 @@ func TestSequential(t *testing.T) {
 						bad("Reader returned other bytes than the secret's content")
 					}
 				}
+			case "ReaderAcrossClose":
+				// a Reader obtained (and partly consumed) before Close hands out nothing afterwards
+				if closed {
+					continue
+				}
+				r := s.NewReader()
+				first := make([]byte, rapid.SampledFrom([]int{1, 3}).Draw(t, "firstRead"))
+				k, e := r.Read(first)
+				if e != nil && e.Error() != "EOF" {
+					bad("Reader.Read on an open secret failed: %v", e)
+				}
+				if !bytes.Equal(first[:k], want[:k]) {
+					bad("Reader returned other bytes than the secret's content")
+				}
+				if e := s.Close(); e != nil {
+					bad("Close returned %v", e)
+				}
+				closed = true
+				if msg := checkClosed(addr); msg != "" {
+					bad("%s", msg)
+				}
+				rest := make([]byte, size+4)
+				if k2, e2 := r.Read(rest); k2 > 0 {
+					bad("a Reader created before Close handed out %d more byte(s) of the secret after Close had returned (err=%v): a copy of the secret outlives Close", k2, e2)
+				}
+				continue
+			case "LastReferenceRead":
+				// a secret used once and dropped without Close: the read callback runs while nothing else
+				// refers to the secret; garbage collections (and finalizers) during the callback must not
+				// pull the pages away from under the reader
+				if impl != "protectedmemory" {
+					continue // memguard secrets have no finalizer; an unclosed one would stay locked for good
+				}
+				if msg := lastReferenceRead(f, want); msg != "" {
+					bad("%s", msg)
+				}
+				continue
 			case "IsClosed":
 				if s.IsClosed() != closed {
 					bad("IsClosed() = %v, expected %v", s.IsClosed(), closed)
@@ -222,10 +304,14 @@ func TestSequential(t *testing.T) {
 				if e := s.Close(); e != nil {
 					bad("Close returned %v", e)
 				}
-				closed = true
-				if msg := checkClosed(addr); msg != "" {
-					bad("%s", msg)
+				// the address is only known to be this secret's right after the Close that released it
+				// (a later allocation may be given the same pages)
+				if !closed {
+					if msg := checkClosed(addr); msg != "" {
+						bad("%s", msg)
+					}
 				}
+				closed = true
 				continue
 			case "ReadAfter":
 				if !closed {
